@@ -305,3 +305,25 @@ theorem L4_sum_prefix_mono (A : ℕ → ℝ) (n j : ℕ) (hnj : n ≤ j) (hpos :
     exact hpos i hi
 
 end PyvcLemmas
+
+namespace PyvcLemmas
+
+/-! ## L4: point update of a summed array -/
+
+/-- Writing `v` at position `k < n` changes the sum by `v - A k` (used for the rejection samplers of the binary / Brier
+tests: `sim[loc] = 1` on a 0/1 array). -/
+theorem L4_sum_point_update (A : ℕ → ℝ) (n k : ℕ) (v : ℝ) (hk : k < n) :
+    SUM (fun i => if i = k then v else A i) n = SUM A n - A k + v := by
+  unfold SUM
+  have hmem : k ∈ Finset.range n := Finset.mem_range.mpr hk
+  rw [← Finset.add_sum_erase _ _ hmem, ← Finset.add_sum_erase (Finset.range n) A hmem]
+  have : ∑ x ∈ (Finset.range n).erase k, (if x = k then v else A x) = ∑ x ∈ (Finset.range n).erase k, A x := by
+    apply Finset.sum_congr rfl
+    intro x hx
+    have : x ≠ k := (Finset.mem_erase.mp hx).1
+    simp [this]
+  rw [this]
+  simp
+  ring
+
+end PyvcLemmas
